@@ -196,6 +196,14 @@ func (w *World) loopClauses(fn *ssa.Function, ord int) []*LoopClause {
 func (w *World) forceUnroll(fn *ssa.Function, ord int) bool { return w.unrollLimit(fn, ord) > 0 }
 
 func (w *World) unrollLimit(fn *ssa.Function, ord int) int {
+	if w.cur != nil {
+		d := fnDisplay(fn)
+		for _, u := range w.cur.UnrollIn {
+			if u.Ord == ord && strings.HasSuffix(d, u.Fn) {
+				return u.N
+			}
+		}
+	}
 	c := w.Contracts[fn.String()]
 	if c == nil {
 		return 0
@@ -303,15 +311,67 @@ func (w *World) globalObj(e *Exec, st *State, g *ssa.Global) (int, bool) {
 	if id, ok := e.globalIDs[g]; ok {
 		if _, live := st.Heap[id]; !live {
 			st.Heap[id] = &LazyVal{T: t, Name: "global." + g.Name()}
+			if sentinelError(g) {
+				st.Heap[id] = &IfaceVal{Opaque: true, IsNil: e.C.False()}
+			}
 		}
 		return id, true
 	}
 	e.nextObj++
 	id := e.nextObj
 	st.Heap[id] = &LazyVal{T: t, Name: "global." + g.Name()}
+	if sentinelError(g) {
+		// var ErrX = errors.New(...) of a package outside the module, never reassigned: a non-nil error whose
+		// identity is the variable
+		st.Heap[id] = &IfaceVal{Opaque: true, IsNil: e.C.False()}
+	}
 	e.metaAll[id] = &ObjMeta{T: t, Name: "global." + g.Name()}
 	e.globalIDs[g] = id
 	return id, true
+}
+
+// sentinelError: g is a package-level `error` variable initialised by errors.New / fmt.Errorf in its package
+// initialiser and stored to nowhere else in that package.
+func sentinelError(g *ssa.Global) bool {
+	if g.Pkg == nil {
+		return false
+	}
+	pt, ok := g.Type().(*types.Pointer)
+	if !ok || !types.Identical(pt.Elem(), types.Universe.Lookup("error").Type()) {
+		return false
+	}
+	initFn := g.Pkg.Func("init")
+	if initFn == nil {
+		return false
+	}
+	found := false
+	for _, m := range g.Pkg.Members {
+		fn, ok := m.(*ssa.Function)
+		if !ok || fn.Blocks == nil {
+			continue
+		}
+		for _, b := range fn.Blocks {
+			for _, in := range b.Instrs {
+				st, ok := in.(*ssa.Store)
+				if !ok || st.Addr != ssa.Value(g) {
+					continue
+				}
+				if fn != initFn {
+					return false
+				}
+				call, ok := st.Val.(*ssa.Call)
+				if !ok {
+					return false
+				}
+				callee := call.Call.StaticCallee()
+				if callee == nil || (callee.String() != "errors.New" && callee.String() != "fmt.Errorf") {
+					return false
+				}
+				found = true
+			}
+		}
+	}
+	return found
 }
 
 type initResult struct {
